@@ -58,12 +58,13 @@ type Prog struct {
 	depFuncs map[*types.Func]*Func // lazily built functions of dependency packages
 	depDone  map[string]bool
 
-	origNode map[ast.Node]ast.Node         // copied node → node it was copied from
-	origObj  map[types.Object]types.Object // renamed object → declared object
-	views    map[viewKey]*Func
-	viewSets map[string]*ViewSet
-	mutRecv  map[*types.Func]bool
-	normSeq  int
+	origNode    map[ast.Node]ast.Node         // copied node → node it was copied from
+	origObj     map[types.Object]types.Object // renamed object → declared object
+	views       map[viewKey]*Func
+	viewSets    map[string]*ViewSet
+	loopEscaped map[types.Object]bool // scratch of canonLoops: variables reachable from outside a loop body
+	mutRecv     map[*types.Func]bool
+	normSeq     int
 }
 
 // Func is a declared function, method or function literal with a body.
@@ -82,6 +83,7 @@ type Func struct {
 
 	View         bool              // an expanded view produced by Prog.Expand
 	Base         *Func             // the loaded function a view was derived from
+	flagM        *flagMachine      // per-path flag analysis of the body's graph (set when the graph is built)
 	Inlined      []*types.Func     // callees whose bodies were copied into the view
 	InlinedCalls map[ast.Node]bool // loaded call expressions expanded in the view
 }
